@@ -72,7 +72,8 @@ func (zzSiteTracker) TrackNames(l convtypes.ResourceType, ln string, r convtypes
 func (zzSiteTracker) TrackRefName(refs []convtypes.TrackingRef, rtype convtypes.ResourceType, name string) {
 }
 
-var zzSiteRefs = []string{"x", "a/x", "b/x"}
+// foreign namespaces: an unrelated name and one that has the reader's namespace as a string prefix
+var zzSiteRefs = []string{"x", "a/x", "b/x", "ab/x"}
 
 // VerifC09_AnnotationSites: an Ingress/Service in namespace "a" uses secure-crt-secret,
 // secure-verify-ca-secret, auth-secret and auth-tls-secret with a bare, own-namespace or foreign
@@ -100,6 +101,7 @@ func VerifC09_AnnotationSites() {
 	preExisting := nd.Bool("userlist.exists")
 	if preExisting {
 		hc.Userlists().Replace("b_x", []hatypes.User{{Name: "bob", Passwd: "secret"}})
+		hc.Userlists().Replace("ab_x", []hatypes.User{{Name: "bob", Passwd: "secret"}})
 	}
 
 	mapper := NewMapBuilder(logger, map[string]string{}).NewMapper()
@@ -139,10 +141,10 @@ func VerifC09_AnnotationSites() {
 		}
 		nd.Assert(got == want, "reference-designates-the-written-object")
 	}
-	foreign := ref == "b/x"
+	foreign := ref == "b/x" || ref == "ab/x"
 	if foreign && !own {
 		for _, r := range cache.reads {
-			nd.Assert(!strings.HasPrefix(r, "b/"), "foreign-secret-not-served")
+			nd.Assert(strings.HasPrefix(r, "a/"), "foreign-secret-not-served")
 		}
 		nd.Assert(backend.Server.CrtFilename == "" && backend.Server.CAFilename == "" && host.TLS.CAFilename == "", "foreign-secret-not-configured")
 		for _, p := range backend.Paths {
